@@ -14,7 +14,7 @@ class PROP(Prop):
     rule = ("server and client side of the real TCP framing: pipelined sequences of well-formed frames under random chunkings and ALL compositions "
             "of short streams (<= 12 bytes quick / 16 bytes thorough); every proper prefix of a frame alone (nothing may be delivered); every length "
             "field value 0..=65535 (sampled in quick) against short and exact payloads; protocol identifiers with every single bit set and random "
-            "values; header fields at extremes.  Emitted frames of generated requests/responses checked for protocol id 0 and length = PDU+1. "
+            "values; bare invalid headers (length 0, length 1, bad protocol id) as the last bytes on the line under all 64 compositions; header fields at extremes.  Emitted frames of generated requests/responses checked for protocol id 0 and length = PDU+1. "
             "Oracle: delivered (tid, unit, request) list == frames sent, in order, once; nothing from an incomplete frame or an invalid header. "
             "non-trivial = stream split into >= 2 reads, or an invalid header, or >= 2 frames")
 
@@ -64,6 +64,20 @@ class PROP(Prop):
                 cs.append(Case("SRV tcp d%s - - r=RSI:7:1:-" % (hdr + payload).hex(), {"k": "srv_len", "L": L, "p": len(payload), "payload": payload.hex(), "nparts": 1}))
                 cs.append(Case(cligen.cli_line("tcp", 9, [cligen.call_op(("RHR", 1, 1), R="d" + (mb.be16(0) + b"\x00\x00" + mb.be16(L) + b"\x09" + b"\x03\x02\x00\x07").hex())]),
                                {"k": "cli_len", "L": L, "nparts": 1}))
+        # --- a bare header as the last thing on the line (no PDU byte behind it): length 0, length 1 (empty PDU), bad protocol id with
+        #     length 1 -- complete as soon as the 7th byte is there, under ALL compositions of the 7 bytes, after 0..2 good frames
+        for L, pid, kind in ((0, 0, "zero"), (1, 0, "empty"), (1, 0x0100, "pid"), (0, 7, "zero")):
+            hdr = mb.be16(0) + mb.be16(pid) + mb.be16(L) + b"\x09"
+            comps = list(mb.all_compositions(hdr))
+            for parts in comps:
+                cs.append(Case("SRV tcp %s - - r=RSI:7:1:-" % mb.rscript(parts), {"k": "srv_bare", "kind": kind, "exp": [], "nparts": len(parts)}))
+                cs.append(Case(cligen.cli_line("tcp", 9, [cligen.call_op(("RHR", 1, 1), R=mb.rscript(parts))]), {"k": "cli_bare", "kind": kind, "nparts": len(parts)}))
+            for _ in range(6 if tier == "quick" else 40):
+                good = mb.tcp_frame(rng.randrange(65536), 3, b"\x11")
+                pre = good * rng.randrange(1, 3)
+                exp = ["C:3:RSI", "W:" + mb.tcp_frame(int.from_bytes(good[:2], "big"), 3, b"\x11\x02\x07\xff").hex()] * (len(pre) // len(good))
+                parts = mb.chunkings(pre + hdr, rng, 1)[0]
+                cs.append(Case("SRV tcp %s - - r=RSI:7:1:-,r=RSI:7:1:-" % mb.rscript(parts), {"k": "srv_bare", "kind": kind, "exp": exp, "nparts": len(parts)}))
         # --- protocol identifier
         pids = [1 << i for i in range(16)] + [0xFFFF] + [rng.randrange(1, 65536) for _ in range(40)]
         for pid in pids:
@@ -153,6 +167,17 @@ class PROP(Prop):
             if L - 1 == 4:
                 return None if res == "OK:RHR:7" else "exact frame: %s" % res[:60]
             return None if not res.startswith("OK:") else "success from a frame announced shorter than its PDU: %s" % res[:60]
+        if k == "srv_bare":
+            if tr[:-1] != m["exp"]:
+                return "before the bare header: delivered %s, want %s" % (",".join(tr[:-1])[:90], ",".join(m["exp"])[:90])
+            if m["kind"] == "empty":
+                return None if tr[-1].startswith("R:") else "frame with an empty PDU not reported as an error: %s" % r[-60:]
+            return None if tr[-1] == "R:InvalidData" else "complete invalid header (%s) not reported as an error: %s" % (m["kind"], r[-60:])
+        if k == "cli_bare":
+            res, _ = cligen.res_and_w(r)
+            if m["kind"] == "empty":
+                return None if res.startswith("T:") else "empty PDU frame: %s" % res[:60]
+            return None if res == "T:InvalidData" else "complete invalid header (%s) in a reply not reported: %s" % (m["kind"], res[:60])
         if k == "srv_pid":
             if any(t.startswith("C:") for t in tr) or any(t.startswith("W:") for t in tr):
                 return "frame with a non-zero protocol identifier was delivered / answered: %s" % r[:80]
@@ -187,7 +212,7 @@ class PROP(Prop):
         return None
 
     def nontrivial(self, c):
-        return c.meta.get("nparts", 1) >= 2 or c.meta["k"] in ("srv_pid", "cli_pid", "srv_len", "cli_len") or c.meta.get("nframes", 1) >= 2
+        return c.meta.get("nparts", 1) >= 2 or c.meta["k"] in ("srv_pid", "cli_pid", "srv_len", "cli_len", "srv_bare", "cli_bare") or c.meta.get("nframes", 1) >= 2
 
     def distribution(self, cases):
         d = {}
